@@ -2277,6 +2277,9 @@ func genQuoteJSON(fd *ast.FuncDecl) string {
 			if ok && len(args) == 1 {
 				r, isChar = charLit(args[0])
 			}
+			if ok && x == result && result != "" && mm == "Grow" && len(args) == 1 && pureSizeExpr(args[0]) {
+				continue // a capacity hint: capacity is not modelled
+			}
 			if !ok || x != result || result == "" || mm != "WriteByte" || !isChar {
 				failAt(st, "quoteJSON: unrecognised statement %s", src(st))
 			}
